@@ -768,6 +768,122 @@ cmd_synlat(char *line)
     return 0;
 }
 
+/* ---- C01 / C03 / C11: a synthetic word-exit history in place of the one the search would write ----------------
+ * synhist <frames searched> <n> then per entry  <from> <to> <word hex | - for a null arc> <frame> <score> <pred>
+ * (entries in the order the search appends them: per frame the word exits, then the one-step null propagations;
+ * pred = 1-based position in this list + 1, 1 = the dummy root entry, as in FsgSearchAbs).
+ * Between decoder_start_utt and the queries the table is written with the library's own fsg_history_entry_add /
+ * fsg_history_end_frame (each entry with its own left context and every right context, so that none dominates
+ * another) and the search's frame counter is set; hypothesis, segmentation and lattice are then extracted by the
+ * unchanged code from a history the specification generated. */
+#include <soundswallower/fsg_history.h>
+static int
+cmd_synhist(char *line)
+{
+    fsg_search_t *fs = d ? (fsg_search_t *)d->search : NULL;
+    fsg_history_t *h;
+    fsg_pnode_ctxt_t all;
+    char *tok, *save = NULL;
+    long t, n, i, k;
+    int *real; /* model index (1-based, 1 = root) -> index in the real table */
+    int nci, silci;
+    if (fs == NULL || d->acmod->state == ACMOD_IDLE)
+        return -1;
+    h = fs->history;
+    nci = bin_mdef_n_ciphone(d->acmod->mdef);
+    silci = bin_mdef_ciphone_id(d->acmod->mdef, "SIL");
+#define NEXT() ((tok = strtok_r(NULL, " \t\r\n", &save)) != NULL)
+    strtok_r(line, " \t\r\n", &save);
+    if (!NEXT()) return -1;
+    t = atol(tok);
+    if (!NEXT()) return -1;
+    n = atol(tok);
+    if (n < 0 || n > 4000)
+        return -1;
+    fsg_pnode_add_all_ctxt(&all);
+    /* back to the state right after the root entry was written */
+    fsg_history_end_frame(h);
+    fsg_history_reset(h);
+    fsg_history_entry_add(h, NULL, -1, 0, -1, silci, all);
+    real = (int *)calloc(n + 2, sizeof(int));
+    real[1] = 0;
+    {
+        long *from = calloc(n + 1, sizeof(long)), *to = calloc(n + 1, sizeof(long)), *fr = calloc(n + 1, sizeof(long)),
+             *sc = calloc(n + 1, sizeof(long)), *pr = calloc(n + 1, sizeof(long));
+        int *wid = calloc(n + 1, sizeof(int));
+        for (i = 0; i < n; ++i) {
+            if (!NEXT()) return -1;
+            from[i] = atol(tok);
+            if (!NEXT()) return -1;
+            to[i] = atol(tok);
+            if (!NEXT()) return -1;
+            if (!strcmp(tok, "-"))
+                wid[i] = -1;
+            else {
+                char *w = vt_unhex(tok, NULL);
+                wid[i] = fsg_model_word_id(fs->fsg, w);
+                free(w);
+                if (wid[i] < 0)
+                    return -1;
+            }
+            if (!NEXT()) return -1;
+            fr[i] = atol(tok);
+            if (!NEXT()) return -1;
+            sc[i] = atol(tok);
+            if (!NEXT()) return -1;
+            pr[i] = atol(tok);
+            if (pr[i] < 1 || pr[i] > i + 1)
+                return -1;
+        }
+        /* batches: maximal runs with the same frame and the same kind (word exit / null propagation) */
+        for (i = 0; i < n;) {
+            long j = i, before = fsg_history_n_entries(h);
+            while (j < n && fr[j] == fr[i] && (wid[j] < 0) == (wid[i] < 0))
+                ++j;
+            if (j - i > nci)
+                return -1; /* one left context per entry of a batch */
+            for (k = i; k < j; ++k) {
+                fsg_arciter_t *it;
+                fsg_link_t *link = NULL;
+                for (it = fsg_model_arcs(fs->fsg, (int32)from[k]); it; it = fsg_arciter_next(it)) {
+                    fsg_link_t *l = fsg_arciter_get(it);
+                    if (link == NULL && fsg_link_to_state(l) == to[k] && fsg_link_wid(l) == wid[k])
+                        link = l;
+                }
+                if (link == NULL) {
+                    fprintf(stderr, "synhist: the search's grammar has no arc %ld -> %ld word %d\n", from[k], to[k], wid[k]);
+                    return -1;
+                }
+                fsg_history_entry_add(h, link, (int32)fr[k], (int32)sc[k], real[pr[k]], (int32)(k - i), all);
+            }
+            fsg_history_end_frame(h);
+            /* where did they go?  (frame < 0: appended at once, in order; otherwise by state, then left context) */
+            for (k = i; k < j; ++k) {
+                long x;
+                real[k + 2] = -1;
+                for (x = before; x < fsg_history_n_entries(h); ++x) {
+                    fsg_hist_entry_t *e = fsg_history_entry_get(h, (int32)x);
+                    if (fr[i] < 0 ? (x - before == k - i) : (e->lc == k - i && e->frame == fr[k]))
+                        real[k + 2] = (int)x;
+                }
+                if (real[k + 2] < 0) {
+                    fprintf(stderr, "synhist: entry %ld was not kept by the table\n", k);
+                    return -1;
+                }
+            }
+            i = j;
+        }
+        free(from), free(to), free(fr), free(sc), free(pr), free(wid);
+    }
+#undef NEXT
+    fs->frame = (frame_idx_t)t;
+    fs->bpidx_start = fsg_history_n_entries(h);
+    scored[1] = (int)t; /* the frames this history stands for */
+    fprintf(vt_out, "{\"e\":\"SynHist\",\"t\":%ld,\"entries\":%d}\n", t, fsg_history_n_entries(h));
+    free(real);
+    return 0;
+}
+
 /* ---- C02: everything a declarative Viterbi network needs, as plain tables ----------------------------
  * The search's own grammar (silence/alternate arcs added, nulls closed) through the public arc iterator, the
  * dictionary pronunciations, and - for the phones that occur - the context-dependent model of every (phone,
@@ -1353,6 +1469,11 @@ main(int argc, char *argv[])
         } else if (!strcmp(cmd, "synlat")) {
             if (cmd_synlat(line) < 0) {
                 fprintf(stderr, "bad synlat command\n");
+                return 3;
+            }
+        } else if (!strcmp(cmd, "synhist")) {
+            if (cmd_synhist(line) < 0) {
+                fprintf(stderr, "bad synhist command\n");
                 return 3;
             }
         } else if (!strcmp(cmd, "net")) {
